@@ -26,14 +26,14 @@ type verifWrite struct {
 }
 
 type verifConn struct {
-	in      chan verifDgram
-	closed  chan struct{}
-	mu      sync.Mutex // a PacketConn may be used from several goroutines
-	isClose bool
+	in       chan verifDgram
+	closed   chan struct{}
+	mu       sync.Mutex // a PacketConn may be used from several goroutines
+	isClose  bool
 	closeErr error
-	log     []verifWrite
-	writes  int
-	failAt  int // index of the WriteTo call that fails (-1: none)
+	log      []verifWrite
+	writes   int
+	failAt   int // index of the WriteTo call that fails (-1: none)
 }
 
 func newVerifConn() *verifConn {
@@ -103,10 +103,10 @@ var errVerifCanceled = errors.New("verif: context canceled")
 var errVerifCloseFailed = errors.New("verif: close failed")
 
 func (c *verifCtx) Deadline() (time.Time, bool) { return time.Time{}, false }
-func (c *verifCtx) Done() <-chan struct{}        { return c.done }
-func (c *verifCtx) Err() error                   { return c.err }
-func (c *verifCtx) Value(key any) any            { return nil }
-func (c *verifCtx) cancelAt(t int64) { c.endAt(t, errVerifCanceled) }
+func (c *verifCtx) Done() <-chan struct{}       { return c.done }
+func (c *verifCtx) Err() error                  { return c.err }
+func (c *verifCtx) Value(key any) any           { return nil }
+func (c *verifCtx) cancelAt(t int64)            { c.endAt(t, errVerifCanceled) }
 
 // endAt ends the context at virtual instant t with the given error (context.Canceled,
 // context.DeadlineExceeded, or the harness's own sentinel).
